@@ -44,6 +44,7 @@ PROGRAM_CFG = {
     'rets': ['value', 'stop', 'unsuccessful', 'kill', 'raise'],
     'effects': ['out', 'status'],
     'kwargs': True,
+    'raw_kill': True,
     'p_async': 0.3,
     'max_awaits': 1,
 }
@@ -135,6 +136,12 @@ def run(case):
     runner = persist.RestartRun(case['program'], case.get('crashes'), case.get('media'), case.get('loader', 'default'))
     try:
         proc = runner.run()
+        if runner.load_error is not None:
+            result.events = list(runner.world.events)
+            result.nontrivial = True
+            result.violate('restore_failed', type(runner.load_error).__name__,
+                           f'a checkpoint taken at a step boundary could not be loaded: {runner.load_error!r} (crashes {case["crashes"]})')
+            return result
         got = _summary(runner, proc)
         result.events = list(runner.world.events)
         result.sim_time = runner.sim_time
